@@ -58,8 +58,16 @@ def handle (op : String) (req : Json) : R Json := do
     let bits ← getList asNat req "bits"
     let data ← getList (asOpt asRat) req "data"
     let n ← getNat req "bins"
+    -- run lengths (optional): value `i` stands for `counts[i]` equal elements.  The model is evaluated on the distinct
+    -- values (minimum, maximum, edges and the bin of a value do not depend on how often it occurs) and the counts of
+    -- the bins are weighted by the run lengths
+    let counts ← match fldOpt req "counts" with
+      | some j => some <$> asList asNat j
+      | none => pure none
     if n < 2 then throw "need at least two bins"
     if bits.length ≠ data.length then throw "bits/data length mismatch"
+    if let some cs := counts then
+      if cs.length ≠ bits.length ∨ cs.any (· == 0) then throw "bad run lengths"
     let fs := bits.map (fun b => Float.ofBits (UInt64.ofNat b))
     for (f, d) in fs.zip data do
       match d with
@@ -74,7 +82,11 @@ def handle (op : String) (req : Json) : R Json := do
         let fcmp := (gs.zip ks).all (fun (x, k) =>
           (decide (x < r.edges.getD k 0) == decide (f64ToRat x < er.getD k 0)) &&
           (decide (x ≥ r.edges.getD (k + 1) 0) == decide (f64ToRat x ≥ er.getD (k + 1) 0)))
-        jObj [("hist", jList jNat r.hist),
+        let hist := match counts with
+          | none => r.hist
+          | some cs =>   -- only reached with no NaN in the data: `gs` is the whole array, runs align with the bins
+            (List.range n).map (fun k => ((r.bins.zip cs).filter (fun p => p.1 == k)).foldl (fun a p => a + p.2) 0)
+        jObj [("hist", jList jNat hist),
               ("edges", jList jRat er),
               ("edge_bits", jList (fun (e : Float) => jNat e.toBits.toNat) r.edges),
               ("est_within_one", jBool ((List.zipWith estNear ks r.ests).all id)),
@@ -84,14 +96,15 @@ def handle (op : String) (req : Json) : R Json := do
               ("first_edge_is_min", jBool (er.getD 0 0 == minL kept)),
               ("last_edge_is_max", jBool (er.getD n 0 == maxL kept)),
               ("float_compare_is_exact_compare", jBool fcmp),
-              ("threshold", jRat (otsuHistN r.hist er))]
+              ("threshold", jRat (otsuHistN hist er))]
     -- `x[~np.isnan(x)]` on the doubles, then the histogram; and the histogram of the array as given
     let np := mirror (maskSelect fs (fs.map (fun f => !f.isNaN)))
     let npRaw := if fs.any (·.isNaN) then mirror fs else Json.null
     -- the exact layer (uniform rational edges, NaN = none)
     let xs := data.filterMap id
+    if counts.isSome ∧ fs.any (·.isNaN) then throw "run lengths with NaN are not supported"
     let exact : Json :=
-      if xs.isEmpty then Json.null else
+      if xs.isEmpty || counts.isSome then Json.null else
       let (hist, edges) := histogram xs n
       jObj [("hist", jList jNat hist), ("edges", jList jRat edges),
             ("distinct", jBool (minL xs != maxL xs))]
@@ -99,8 +112,8 @@ def handle (op : String) (req : Json) : R Json := do
       ("np", np),
       ("np_raw", npRaw),
       ("exact", exact),
-      ("otsu_remove_nan", jOpt jRat (otsuArr true data n)),
-      ("otsu_keep_nan", jOpt jRat (otsuArr false data n))])
+      ("otsu_remove_nan", if counts.isSome then Json.null else jOpt jRat (otsuArr true data n)),
+      ("otsu_keep_nan", if counts.isSome then Json.null else jOpt jRat (otsuArr false data n))])
   | _ => throw s!"unknown op {op}"
 
 end PewDriver.C15
